@@ -186,8 +186,17 @@ func genProgram(r *rand.Rand) gProgram {
 		var imps []gImport
 		usedNames := map[string]bool{}
 		hasDot := false
+		// styles are drawn first so that an alias can avoid the names later imports will bind
+		styles := make([]string, len(g.Remotes))
+		laterPlain := map[string]bool{}
 		for k, rm := range g.Remotes {
-			st := []string{"plain", "plain", "alias", "dot", "blank", "none"}[r.Intn(6)]
+			styles[k] = []string{"plain", "plain", "alias", "dot", "blank", "none"}[r.Intn(6)]
+			if styles[k] == "plain" {
+				laterPlain[rm.Name] = true
+			}
+		}
+		for k, rm := range g.Remotes {
+			st := styles[k]
 			if fi == 0 && st == "dot" {
 				st = "plain" // the first file is always one goast can decide
 			}
@@ -202,6 +211,11 @@ func genProgram(r *rand.Rand) gProgram {
 			}
 			if gi.Style == "alias" {
 				gi.Alias = []string{"pk", "al", "x", "imp"}[r.Intn(4)] + fmt.Sprint(k)
+				// sometimes the alias is the package name of another remote package that this file
+				// does not import under that name (moving code between files then meets the clash)
+				if o := g.Remotes[r.Intn(len(g.Remotes))]; r.Intn(3) == 0 && o.Idx != k && o.Name != rm.Name && !usedNames[o.Name] && !laterPlain[o.Name] {
+					gi.Alias = o.Name
+				}
 				usedNames[gi.Alias] = true
 			} else if gi.Style == "plain" {
 				usedNames[rm.Name] = true
